@@ -12,7 +12,9 @@ META = {
     "elements, aligned ranges and misaligned ranges (must fail); strings of length 0, 1, cap-1, cap, cap+1, cap+40; structure "
     "dicts; raw bytes; each request once through the single-request path and once through the multi-service path (second small "
     "request added); several bits of one word and duplicates in one call; chains write->write->read over a reduced alphabet. "
-    "Refused write services (shared with C03): every n-th write service of single/3/6-request calls refused with 3 statuses - success may only be "
+    "Call histories (E2): every 2-sequence of 23 read/write operations (good, unknown, refused by the controller, unencodable, fragmented, lists mixing them) and every "
+    "3-sequence (thorough 4) over 9 of them on 4 controller/connection configurations, memory accumulating along the history, each step judged by the reference from the current memory. "
+    "Bits of several elements of one array and of several words of one BOOL array in one call. Refused write services (shared with C03): every n-th write service of single/3/6-request calls refused with 3 statuses - success may only be "
     "reported for data that is in memory. Oracle: byte-for-byte diff of ALL controller memory against the reference encoding applied to the prior image (care mask "
     "only inside written strings/structures), service log shows each write applied exactly once (fragments tile the value), "
     "returned Tag truthy with the value/type/name, read-back equals the reference reading of the expected image. "
@@ -176,6 +178,8 @@ def shards(tier, seed):
                 sh.append(("combos", pn, pers, conn, "combo"))
     # the controller refuses the n-th write service (every n, several statuses): success may only be reported for data that is in memory
     sh += [("refused", "P2", pers, conn, "refused") for pers in ("v20", "v32", "m800") for conn in CONNS]
+    # E2: call histories mixing good and failing reads and writes; the reference judges every step from the memory the history has produced
+    sh += [("history", "P2", pers, conn, "history") for pers, conn in (("v20", 500), ("v32", 4000), ("m800", 500), ("v21", 4000))]
     return sh
 
 
@@ -191,6 +195,11 @@ def run_shard(shard, tier, seed):
     if r != ("ok", True):
         rep.case((cfg, "open"), outcome="open-failed")
         rep.violation("write/open-failed", f"{cfg}: open() -> {r!r:.120}", {"cfg": list(cfg), "image": 0, "requests": [], "path": path})
+        w.__exit__()
+        return rep
+    if kind == "history":
+        run_histories(rep, cfg, proj, ctl, d, tier, seed)
+        call(d.close)
         w.__exit__()
         return rep
     if kind == "refused":
@@ -299,6 +308,97 @@ def run_shard(shard, tier, seed):
     return rep
 
 
+def history_ops(proj):
+    from . import c03
+
+    pv = Q.struct_value(proj.find("padded1").typ, 2)
+    big = [(i * 11) % 30000 for i in range(2100)]
+    return {
+        # reads
+        "r-plain": ("read", ["plain"]), "r-struct": ("read", ["padded1"]), "r-frag": ("read", ["big_int{2100}"]), "r-bools": ("read", ["arrs1.ba[1]{40}"]),
+        "r-bit": ("read", ["plain2.3"]), "r-list": ("read", ["plain", "str1", "inner1.name", "plain2.3"]),
+        "r-unknown": ("read", ["nope"]), "r-refused": ("read", ["padded_ary[9]"]), "r-renamed-refused": ("read", ["big_int[2100].3"]),
+        "r-mixed": ("read", ["nope", "plain", "padded_ary[9]", "plain3"]),
+        # writes
+        "w-plain": ("write", [("plain", 41)]), "w-bit": ("write", [("plain2.3", True)]), "w-bit0": ("write", [("plain2.3", False)]), "w-struct": ("write", [("padded1", pv)]),
+        "w-frag": ("write", [("big_int{2100}", big)]), "w-str": ("write", [("str1", "history")]), "w-list": ("write", [("plain3", 9), ("bools1.b3", True), ("inner1.name", "xy")]),
+        "w-unknown": ("write", [("nope", 1)]), "w-unencodable": ("write", [("plain3", "abc")]), "w-short": ("write", [("s20_ary{3}", ["a", "b"])]),
+        "w-nolen": ("write", [("big_int{3}", 7)]), "w-readonly": ("write", [("ro_tag", 1)]), "w-mixed": ("write", [("nope", 1), ("plain", 43), ("ro_tag", 2), ("plain3", 10)]),
+    }
+
+
+def history_step(proj, d, kind, reqs):
+    """One call judged against the reference from the memory as it is now -> list of (clause, detail)."""
+    from . import c01, c03
+
+    probs = []
+    pre = proj.snapshot()
+    out = call(d.read, *reqs) if kind == "read" else call(d.write, *(reqs if len(reqs) > 1 else reqs[0]))
+    if out[0] != "ok":
+        return [("exception", f"{kind} raised {out!r:.120}")]
+    res = out[1] if isinstance(out[1], list) else [out[1]]
+    if len(res) != len(reqs) or (len(reqs) == 1 and isinstance(out[1], list)):
+        return [("shape", f"{len(reqs)} requests, result {out[1]!r:.80}")]
+    for k, (g, rq) in enumerate(zip(res, reqs)):
+        text = rq if kind == "read" else rq[0]
+        c = c03.tag_ok(g)
+        if c:
+            probs.append(("truthiness-contract", f"#{k} {text!r}: {c}"))
+            continue
+        if kind == "read":
+            want = Q.read_expect(proj, text)
+            if want[0] == "ok":
+                probs += [(cl, f"#{k} {text!r}: {dt}") for cl, dt in c01.judge(g, want, text)]
+            elif bool(g):
+                probs.append(("verdict", f"#{k} {text!r} cannot succeed ({want[1]}) but returned {g!r:.80}"))
+            elif not c03.name_ok(g, text, False):
+                probs.append(("name", f"#{k} carries tag {g.tag!r}, request was {text!r}"))
+        else:
+            e = Q.write_expect(proj, text, rq[1])
+            if bool(g) != e.ok:
+                probs.append(("verdict", f"#{k} {text!r}: {'succeeded' if bool(g) else 'failed (' + str(g.error)[:60] + ')'} but the reference says it {'succeeds' if e.ok else 'cannot succeed'}"))
+            elif not c03.name_ok(g, text, bool(g)):
+                probs.append(("name", f"#{k} carries tag {g.tag!r}, request was {text!r}"))
+    if kind == "write" and not probs:
+        m = c03.memory_problem(proj, pre, reqs, res)
+        if m:
+            probs.append(("memory", m))
+    elif kind == "read" and proj.snapshot() != pre:
+        probs.append(("memory", "a read changed controller memory"))
+    return probs
+
+
+def run_histories(rep, cfg, proj, ctl, d, tier, seed):
+    import itertools
+
+    fill_image(proj, seed % 4)
+    ops = history_ops(proj)
+    names = list(ops)
+    sub = ["r-plain", "r-frag", "r-mixed", "r-renamed-refused", "w-bit", "w-frag", "w-mixed", "w-nolen", "w-struct"]
+    hists = [h for h in itertools.product(names, repeat=2)] + [h for h in itertools.product(sub, repeat=3)]
+    if tier == "thorough":
+        hists += [h for h in itertools.product(sub, repeat=4)]
+    base = proj.snapshot()
+    for h in hists:
+        proj.restore(base)
+        bad = None
+        for i, nm in enumerate(h):
+            kind, reqs = ops[nm]
+            probs = history_step(proj, d, kind, reqs)
+            if probs:
+                bad = (i, nm, probs)
+                break
+        rep.case((cfg, "history", h), outcome="ok" if bad is None else bad[2][0][0], calls=len(h))
+        if bad:
+            i, nm, probs = bad
+            first = i == 0
+            for clause, detail in probs[:2]:
+                rep.violation(f"write/history/{clause}/{'first-call' if first else 'after-' + ops[h[i - 1]][0]}/{nm}", f"{cfg}: history {list(h[:i + 1])}: {nm}: {detail}",
+                              {"cfg": list(cfg), "image": seed % 4, "requests": list(h[:i + 1]), "path": "history"})
+    proj.restore(base)
+    rep.sample({"config": cfg, "history_ops": names, "depth2": len(names) ** 2, "depth3_alphabet": sub})
+
+
 def check_chain(rep, cfg, proj, ctl, d, seq):
     want = {k: bytearray(v) for k, v in proj.snapshot().items()}
     care = {k: bytearray(b"\xff" * len(v)) for k, v in want.items()}
@@ -335,6 +435,15 @@ def replay(r):
     fill_image(proj, r["image"])
     reqs = [(x, tuple(v) if False else v) for x, v in r["requests"]]
     rep = Report()
+    if r["path"] == "history":
+        ops = history_ops(proj)
+        ok = True
+        for nm in r["requests"]:
+            probs = history_step(proj, d, *ops[nm])
+            print(" ", nm, "->", probs[:2] if probs else "ok")
+            ok = ok and not probs
+        w.__exit__()
+        return ok
     if r["path"] == "refused":
         w.__exit__()
         rep = run_shard(("refused", cfg[0], cfg[1], cfg[2], "refused"), "quick", r["image"])
